@@ -51,7 +51,8 @@ def render(model):
 
 def base_model():
     # (b's env value is one that parse_env_dict rewrites: a $VAR reference to the daemon's environment)
-    return {'a': {'cmd': 'proga', 'numprocesses': 2, 'graceful_timeout': '0.2'},
+    # (a names its stream class explicitly: get_stream() pops that key from the dict it is given)
+    return {'a': {'cmd': 'proga', 'numprocesses': 2, 'graceful_timeout': '0.2', 'stderr_stream.class': 'StdoutStream'},
             'b': {'cmd': 'progb', 'numprocesses': 1, 'graceful_timeout': '0.2', 'env': {'DATA_DIR': '$C12BASE/data'}}}
 
 
@@ -136,6 +137,8 @@ def c12_reload(e1: int, e2: int, e3: int) -> bool:
             f.write(render(model))
         with World() as w:
             k = w.kernel
+            from vtlib.world import pipes as vpipes
+            k.pipes = vpipes.PipeTable(k)          # watcher a captures stderr (its stream class is named in the file)
             k.behaviour = lambda i, argv: Beh(obey=0.0)
             # the parser runs outside the tracer: its only input, the file text, is concrete on every path (C16 is about the parser)
             import circus.arbiter as _ca
